@@ -304,3 +304,8 @@ N('benign.explicit-eq-over-dict', [(P + 'tls/openvpn.py', "@attr.s\nclass OpenVp
 B('C17.eq-reads-foreign-operand', ['C17'], [(P + 'tls/version.py', "    def __eq__(self, other):\n        if not isinstance(other, TlsProtocolVersion):\n            return NotImplemented\n\n", "    def __eq__(self, other):\n")], mention=['foreign-operand'])
 N('benign.eq-guard-by-attribute-error', [(P + 'tls/version.py', "    def __eq__(self, other):\n        if not isinstance(other, TlsProtocolVersion):\n            return NotImplemented\n\n        return self.version.value.code == other.version.value.code\n",
    "    def __eq__(self, other):\n        try:\n            return self.version.value.code == other.version.value.code\n        except AttributeError:\n            return NotImplemented\n")])
+B('C07.parsed-field-dropped', ['C07'], [(P + 'ssh/subprotocol.py', "            body_parser['gex_min'],\n            body_parser['gex_number'],\n            body_parser['gex_max'],", "            body_parser['gex_max'],\n            body_parser['gex_number'],\n            body_parser['gex_max'],")], mention=['gex_min'])
+B('C08.rrsig-times-swapped-both-sides', ['C08'], [
+    (P + 'dnsrec/record.py', "        parser.parse_timestamp('signature_expiration', item_size=4)\n        parser.parse_timestamp('signature_inception', item_size=4)", "        parser.parse_timestamp('signature_inception', item_size=4)\n        parser.parse_timestamp('signature_expiration', item_size=4)"),
+    (P + 'dnsrec/record.py', "        composer.compose_timestamp(self.signature_expiration, item_size=4)\n        composer.compose_timestamp(self.signature_inception, item_size=4)", "        composer.compose_timestamp(self.signature_inception, item_size=4)\n        composer.compose_timestamp(self.signature_expiration, item_size=4)")],
+  mention=['signature_'])
